@@ -89,3 +89,388 @@ Proof.
   intros row_ids next. unfold fill_row_ids, lift_ids.
   exact (gen_loop_is_fill row_ids [] next).
 Qed.
+
+(* ================================================================================================ *)
+(* Part 2: the row-id set and [fill]                                                                *)
+
+Lemma mem_In : forall x l, py_mem Z.eqb x l = true <-> In x l.
+Proof. exact py_mem_Z_In. Qed.
+
+Lemma mem_false : forall x l, py_mem Z.eqb x l = false <-> ~ In x l.
+Proof.
+  intros x l. rewrite <- mem_In. destruct (py_mem Z.eqb x l); split; intros; congruence.
+Qed.
+
+Lemma max_row_ge : forall rs e, In e rs -> e <= max_row rs.
+Proof.
+  induction rs as [|r rs IH]; intros e H; [contradiction|].
+  cbn [max_row fold_right]. fold (max_row rs). destruct H as [->|H]; [lia|]. apply IH in H. lia.
+Qed.
+
+Lemma max_row_nonneg : forall rs, 0 <= max_row rs.
+Proof. induction rs as [|r rs IH]; cbn [max_row fold_right]; [lia|]. fold (max_row rs). lia. Qed.
+
+Lemma next_row_id_gt : forall rs e, In e rs -> e < next_row_id rs.
+Proof. intros rs e H. unfold next_row_id. apply max_row_ge in H. lia. Qed.
+
+Lemma next_row_id_pos : forall rs, 1 <= next_row_id rs.
+Proof. intros rs. unfold next_row_id. pose proof (max_row_nonneg rs). lia. Qed.
+
+Lemma add_row_In : forall rs r x, In x (add_row rs r) <-> In x rs \/ (x = r /\ 0 < r).
+Proof.
+  intros rs r x. unfold add_row.
+  destruct (0 <? r) eqn:Hp; cbn [andb].
+  - apply Z.ltb_lt in Hp. destruct (py_mem Z.eqb r rs) eqn:Hm; cbn [negb].
+    + apply mem_In in Hm. split; [tauto|]. intros [H|[-> _]]; assumption.
+    + rewrite in_app_iff. cbn [In]. split.
+      * intros [H|[H|[]]]; [tauto|]. right. split; [congruence|assumption].
+      * intros [H|[-> _]]; [tauto|]. right. left. reflexivity.
+  - apply Z.ltb_ge in Hp. split; [tauto|]. intros [H|[_ H]]; [assumption|lia].
+Qed.
+
+Lemma NoDup_app_intro : forall (l m : list Z),
+  NoDup l -> NoDup m -> (forall x, In x l -> ~ In x m) -> NoDup (l ++ m).
+Proof.
+  induction l as [|a l IH]; intros m Hl Hm Hd; [exact Hm|].
+  inversion Hl as [|? ? Hna Hl']; subst. cbn [app]. constructor.
+  - rewrite in_app_iff. intros [H|H]; [contradiction|]. apply (Hd a); [left; reflexivity|assumption].
+  - apply IH; [assumption|assumption|]. intros x Hx. apply Hd. right. assumption.
+Qed.
+
+Lemma add_row_wf : forall rs r, wf_rows rs -> wf_rows (add_row rs r).
+Proof.
+  intros rs r [Hnd Hpos]. unfold add_row.
+  destruct (0 <? r) eqn:Hp; cbn [andb]; [|split; assumption].
+  destruct (py_mem Z.eqb r rs) eqn:Hm; cbn [negb]; [split; assumption|].
+  apply mem_false in Hm. apply Z.ltb_lt in Hp. split.
+  - apply NoDup_app_intro; [assumption|repeat constructor; intros []|].
+    intros x Hx [Hy|[]]. subst. contradiction.
+  - apply Forall_app. split; [assumption|]. repeat constructor. assumption.
+Qed.
+
+Lemma add_rows_In : forall ids rs x, In x (add_rows rs ids) <-> In x rs \/ (In x ids /\ 0 < x).
+Proof.
+  induction ids as [|r ids IH]; intros rs x; cbn [add_rows fold_left].
+  - split; [tauto|]. intros [H|[[] _]]. assumption.
+  - fold (add_rows (add_row rs r) ids). rewrite IH, add_row_In. cbn [In]. split.
+    + intros [[H|[-> H]]|[H1 H2]]; [tauto| |tauto]. right. split; [left; reflexivity|assumption].
+    + intros [H|[[->|H1] H2]]; [tauto| |tauto]. left. right. split; [reflexivity|assumption].
+Qed.
+
+Lemma add_rows_wf : forall ids rs, wf_rows rs -> wf_rows (add_rows rs ids).
+Proof.
+  induction ids as [|r ids IH]; intros rs H; cbn [add_rows fold_left]; [assumption|].
+  apply IH. apply add_row_wf. assumption.
+Qed.
+
+Lemma wf_nil : wf_rows [].
+Proof. split; constructor. Qed.
+
+Lemma explicit_some : forall r z, explicit r = Some z -> r = Some z /\ 0 <= z.
+Proof.
+  intros [y|] z H; cbn [explicit] in H; [|discriminate].
+  destruct (y <? 0) eqn:Hn; [discriminate|]. apply Z.ltb_ge in Hn. inversion H; subst. split; [reflexivity|assumption].
+Qed.
+
+Lemma fill_one_explicit : forall n r z, explicit r = Some z ->
+  fill_one n r = if z >? MAX_ROW_ID then PyErr PyValueError else PyOk z.
+Proof.
+  intros n r z H. destruct (explicit_some _ _ H) as [-> Hz]. cbn [fill_one].
+  replace (z <? 0) with false by (symmetry; apply Z.ltb_ge; assumption). reflexivity.
+Qed.
+
+Lemma fill_one_auto : forall n r, explicit r = None -> fill_one n r = PyOk n.
+Proof.
+  intros n [y|] H; cbn [explicit fill_one] in *; [|reflexivity].
+  destruct (y <? 0); [reflexivity|discriminate].
+Qed.
+
+(* one step of [fill], by kind of slot *)
+Lemma fill_cons_explicit : forall n r z t out, explicit r = Some z ->
+  fill n (r :: t) = PyOk out ->
+  z <= MAX_ROW_ID /\ exists o, out = z :: o /\ fill (Z.max n z + 1) t = PyOk o.
+Proof.
+  intros n r z t out He H. cbn [fill] in H. rewrite (fill_one_explicit n r z He) in H.
+  destruct (z >? MAX_ROW_ID) eqn:Hh; [discriminate|].
+  destruct (fill (Z.max n z + 1) t) as [o|] eqn:Ht; [|discriminate].
+  inversion H; subst. split; [lia|]. exists o. split; reflexivity.
+Qed.
+
+Lemma fill_cons_auto : forall n r t out, explicit r = None ->
+  fill n (r :: t) = PyOk out ->
+  exists o, out = n :: o /\ fill (n + 1) t = PyOk o.
+Proof.
+  intros n r t out He H. cbn [fill] in H. rewrite (fill_one_auto n r He) in H.
+  replace (Z.max n n + 1) with (n + 1) in H by lia.
+  destruct (fill (n + 1) t) as [o|] eqn:Ht; [|discriminate].
+  inversion H; subst. exists o. split; reflexivity.
+Qed.
+
+(* every returned id is an explicit id of the request or an automatic id >= next *)
+Lemma fill_elems : forall req n out, fill n req = PyOk out ->
+  forall o, In o out -> In o (explicit_ids req) \/ n <= o.
+Proof.
+  induction req as [|r t IH]; intros n out H o Ho.
+  - cbn in H. inversion H; subst. contradiction.
+  - cbn [explicit_ids flat_map]. destruct (explicit r) as [z|] eqn:He.
+    + destruct (fill_cons_explicit _ _ _ _ _ He H) as [_ [o' [-> Ht]]].
+      destruct Ho as [<-|Ho]; [left; left; reflexivity|].
+      destruct (IH _ _ Ht _ Ho) as [Hi|Hi]; [left; right; exact Hi|right; lia].
+    + destruct (fill_cons_auto _ _ _ _ He H) as [o' [-> Ht]].
+      destruct Ho as [<-|Ho]; [right; lia|].
+      destruct (IH _ _ Ht _ Ho) as [Hi|Hi]; [left; exact Hi|right; lia].
+Qed.
+
+Lemma explicit_in_out : forall req n out, fill n req = PyOk out ->
+  forall z, In z (explicit_ids req) -> In z out.
+Proof.
+  induction req as [|r t IH]; intros n out H z Hz; [contradiction|].
+  cbn [explicit_ids flat_map] in Hz. destruct (explicit r) as [y|] eqn:He.
+  - destruct (fill_cons_explicit _ _ _ _ _ He H) as [_ [o' [-> Ht]]].
+    destruct Hz as [<-|Hz]; [left; reflexivity|right; eapply IH; eassumption].
+  - destruct (fill_cons_auto _ _ _ _ He H) as [o' [-> Ht]]. right. eapply IH; eassumption.
+Qed.
+
+Lemma explicit_ids_bounds : forall req z, In z (explicit_ids req) -> 0 <= z.
+Proof.
+  induction req as [|r t IH]; intros z Hz; [contradiction|].
+  cbn [explicit_ids flat_map] in Hz. destruct (explicit r) as [y|] eqn:He.
+  - destruct Hz as [<-|Hz]; [apply (explicit_some _ _ He)|apply IH; assumption].
+  - apply IH; assumption.
+Qed.
+
+(* shape of the result: explicit ids honoured (and within the limit), automatic ids >= next *)
+Lemma fill_shape : forall req n out, fill n req = PyOk out ->
+  Forall2 (fun r o => match explicit r with Some z => o = z /\ z <= MAX_ROW_ID | None => n <= o end) req out.
+Proof.
+  induction req as [|r t IH]; intros n out H.
+  - cbn in H. inversion H; subst. constructor.
+  - destruct (explicit r) as [z|] eqn:He.
+    + destruct (fill_cons_explicit _ _ _ _ _ He H) as [Hz [o' [-> Ht]]].
+      constructor; [rewrite He; split; [reflexivity|assumption]|].
+      eapply Forall2_impl; [|apply (IH _ _ Ht)]. intros a b Hab. cbv beta in *.
+      destruct (explicit a); [assumption|lia].
+    + destruct (fill_cons_auto _ _ _ _ He H) as [o' [-> Ht]].
+      constructor; [rewrite He; lia|].
+      eapply Forall2_impl; [|apply (IH _ _ Ht)]. intros a b Hab. cbv beta in *.
+      destruct (explicit a); [assumption|lia].
+Qed.
+
+(* [fill] fails exactly on an explicit id above the limit *)
+Lemma fill_err_iff : forall req n,
+  (exists e, fill n req = PyErr e) <-> (exists z, In z (explicit_ids req) /\ z > MAX_ROW_ID).
+Proof.
+  induction req as [|r t IH]; intros n.
+  - cbn. split; intros [x H]; [discriminate|destruct H as [[] _]].
+  - cbn [fill explicit_ids flat_map]. destruct (explicit r) as [z|] eqn:He.
+    + rewrite (fill_one_explicit n r z He). destruct (z >? MAX_ROW_ID) eqn:Hh.
+      * split; [|intros _; eexists; reflexivity]. intros _. exists z. split; [left; reflexivity|lia].
+      * specialize (IH (Z.max n z + 1)). destruct (fill (Z.max n z + 1) t) as [o|e] eqn:Ht.
+        -- split; [intros [x Hx]; discriminate|]. intros [y [[<-|Hy] Hy2]]; [lia|].
+           exfalso. destruct IH as [_ IH]. destruct IH as [x Hx]; [exists y; tauto|discriminate].
+        -- split; [|intros _; eexists; reflexivity]. intros _. destruct IH as [IH _].
+           destruct IH as [y [Hy1 Hy2]]; [eexists; reflexivity|]. exists y. split; [right; assumption|assumption].
+    + rewrite (fill_one_auto n r He). specialize (IH (Z.max n n + 1)).
+      cbn [app]. destruct (fill (Z.max n n + 1) t) as [o|e] eqn:Ht.
+      * split; [intros [x Hx]; discriminate|]. intros Hy. destruct IH as [_ IH]. destruct (IH Hy); discriminate.
+      * split; [|intros _; eexists; reflexivity]. intros _. apply IH. eexists; reflexivity.
+Qed.
+
+Lemma clash_free_explicit_notin : forall req n autos, clash_free n autos req = true ->
+  forall z, In z (explicit_ids req) -> ~ In z autos.
+Proof.
+  induction req as [|r t IH]; intros n autos H z Hz; [contradiction|].
+  cbn [clash_free] in H. cbn [explicit_ids flat_map] in Hz. destruct (explicit r) as [y|] eqn:He.
+  - apply andb_true_iff in H. destruct H as [H1 H2].
+    destruct Hz as [<-|Hz].
+    + apply mem_false. destruct (py_mem Z.eqb y autos); [discriminate|reflexivity].
+    + eapply IH; eassumption.
+  - intros Hin. eapply (IH _ _ H z Hz). right. assumption.
+Qed.
+
+(* distinctness of the filled ids, from input-level hypotheses *)
+Lemma fill_nodup : forall req n autos out, fill n req = PyOk out ->
+  NoDup (explicit_ids req) -> clash_free n autos req = true -> NoDup out.
+Proof.
+  induction req as [|r t IH]; intros n autos out H Hnd Hcf.
+  - cbn in H. inversion H; subst. constructor.
+  - cbn [clash_free] in Hcf. cbn [explicit_ids flat_map] in Hnd. destruct (explicit r) as [z|] eqn:He.
+    + destruct (fill_cons_explicit _ _ _ _ _ He H) as [_ [o' [-> Ht]]].
+      apply andb_true_iff in Hcf. destruct Hcf as [_ Hcf]. cbn [app] in Hnd.
+      inversion Hnd as [|? ? Hz Hnd']; subst. constructor; [|eapply IH; eassumption].
+      intros Hin. destruct (fill_elems _ _ _ Ht _ Hin) as [Hi|Hi]; [contradiction|lia].
+    + destruct (fill_cons_auto _ _ _ _ He H) as [o' [-> Ht]]. cbn [app] in Hnd.
+      constructor; [|eapply IH; eassumption].
+      intros Hin. destruct (fill_elems _ _ _ Ht _ Hin) as [Hi|Hi]; [|lia].
+      eapply clash_free_explicit_notin; [exact Hcf|exact Hi|left; reflexivity].
+Qed.
+
+(* ... and conversely: if the filled ids are distinct, the hypotheses held (they are exact) *)
+Lemma fill_nodup_inv : forall req n autos out, fill n req = PyOk out ->
+  NoDup out -> (forall a, In a autos -> ~ In a out) ->
+  NoDup (explicit_ids req) /\ clash_free n autos req = true.
+Proof.
+  induction req as [|r t IH]; intros n autos out H Hnd Hdis.
+  - split; [constructor|reflexivity].
+  - cbn [clash_free explicit_ids flat_map]. destruct (explicit r) as [z|] eqn:He.
+    + destruct (fill_cons_explicit _ _ _ _ _ He H) as [_ [o' [-> Ht]]].
+      inversion Hnd as [|? ? Hz Hnd']; subst.
+      destruct (IH _ autos _ Ht Hnd') as [I1 I2].
+      { intros a Ha Hin. apply (Hdis a Ha). right. assumption. }
+      split.
+      * cbn [app]. constructor; [|assumption]. intros Hin. apply Hz. eapply explicit_in_out; eassumption.
+      * apply andb_true_iff. split; [|assumption].
+        destruct (py_mem Z.eqb z autos) eqn:Hm; [|reflexivity].
+        apply mem_In in Hm. exfalso. apply (Hdis z Hm). left. reflexivity.
+    + destruct (fill_cons_auto _ _ _ _ He H) as [o' [-> Ht]].
+      inversion Hnd as [|? ? Hz Hnd']; subst. cbn [app].
+      apply (IH _ (n :: autos) _ Ht Hnd').
+      intros a [<-|Ha] Hin; [contradiction|]. apply (Hdis a Ha). right. assumption.
+Qed.
+
+Lemma forallb_auto_explicit_ids : forall t, forallb is_auto t = true -> explicit_ids t = [].
+Proof.
+  induction t as [|r t IH]; intros H; [reflexivity|].
+  cbn [forallb] in H. apply andb_true_iff in H. destruct H as [H1 H2].
+  cbn [explicit_ids flat_map]. unfold is_auto in H1. destruct (explicit r); [discriminate|]. apply IH. assumption.
+Qed.
+
+Lemma clash_free_no_explicit : forall t n autos, explicit_ids t = [] -> clash_free n autos t = true.
+Proof.
+  induction t as [|r t IH]; intros n autos H; [reflexivity|].
+  cbn [explicit_ids flat_map] in H. cbn [clash_free]. destruct (explicit r); [discriminate|]. apply IH. assumption.
+Qed.
+
+(* explicit ids first, automatic slots last: nothing can clash *)
+Lemma explicit_first_clash_free : forall req n, explicit_first req = true -> clash_free n [] req = true.
+Proof.
+  induction req as [|r t IH]; intros n H; [reflexivity|].
+  cbn [explicit_first] in H. cbn [clash_free]. unfold is_auto in H. destruct (explicit r) as [z|].
+  - cbn [py_mem negb andb]. apply IH. assumption.
+  - apply clash_free_no_explicit. apply forallb_auto_explicit_ids. assumption.
+Qed.
+
+Lemma existsb_row_in_false : forall rs out, existsb (fun r => row_in r rs) out = false ->
+  forall o, In o out -> 0 < o -> ~ In o rs.
+Proof.
+  intros rs out H o Ho Hp Hin.
+  assert (E : existsb (fun r => row_in r rs) out = true).
+  { apply existsb_exists. exists o. split; [assumption|]. unfold row_in.
+    apply andb_true_iff. split; [apply Z.ltb_lt; assumption|apply mem_In; assumption]. }
+  congruence.
+Qed.
+
+(* ================================================================================================ *)
+(* Part 3: the unchanged code                                                                       *)
+
+(* what an accepted BulkAddRecord guarantees with NO extra hypothesis *)
+Lemma add_accepted_always : forall rs req out rs', wf_rows rs ->
+  do_bulk_add_or_replace false rs req = Accepted out rs' ->
+  fill (next_row_id rs) req = PyOk out /\
+  (forall r, In r out -> ~ In r rs) /\
+  Forall2 (fun r o => match explicit r with Some z => o = z | None => forall e, In e rs -> e < o end) req out /\
+  (forall r, In r rs' <-> In r rs \/ (In r out /\ 0 < r)) /\
+  wf_rows rs'.
+Proof.
+  intros rs req out rs' Hwf H. unfold do_bulk_add_or_replace in H.
+  destruct (fill (next_row_id rs) req) as [o|e] eqn:Hf; [|discriminate].
+  unfold finish, doc_bulk_add in H.
+  destruct (existsb (fun r => row_in r rs) o) eqn:Hex; [discriminate|].
+  inversion H; subst. split; [reflexivity|]. split; [|split; [|split]].
+  - intros r Hr Hin. assert (0 < r) by (destruct Hwf as [_ Hp]; rewrite Forall_forall in Hp; apply Hp; assumption).
+    eapply existsb_row_in_false; eassumption.
+  - eapply Forall2_impl; [|apply (fill_shape _ _ _ Hf)]. intros a b Hab. cbv beta in *.
+    destruct (explicit a); [tauto|]. intros e He. apply next_row_id_gt in He. lia.
+  - intros r. apply add_rows_In.
+  - apply add_rows_wf. assumption.
+Qed.
+
+Lemma out_positive : forall rs req out, fill (next_row_id rs) req = PyOk out ->
+  ~ In 0 (explicit_ids req) -> forall o, In o out -> 0 < o.
+Proof.
+  intros rs req out Hf H0 o Ho. destruct (fill_elems _ _ _ Hf _ Ho) as [Hi|Hi].
+  - pose proof (explicit_ids_bounds _ _ Hi). assert (o <> 0) by (intros ->; contradiction). lia.
+  - pose proof (next_row_id_pos rs). lia.
+Qed.
+
+(* C27_alloc under the narrowest hypotheses that exclude the three defects *)
+Lemma alloc_partial : forall rs req, wf_rows rs ->
+  ~ In 0 (explicit_ids req) -> NoDup (explicit_ids req) -> clash_free (next_row_id rs) [] req = true ->
+  alloc_statement (do_bulk_add_or_replace false) rs req.
+Proof.
+  intros rs req Hwf H0 Hnd Hcf out rs' H.
+  destruct (add_accepted_always _ _ _ _ Hwf H) as [Hf [Hdis [Hsh [Hin Hwf']]]].
+  split; [eapply fill_nodup; eassumption|]. split; [assumption|]. split; [assumption|]. split; [|assumption].
+  intros r. rewrite Hin. split; [tauto|]. intros [Hr|Hr]; [tauto|]. right. split; [assumption|].
+  eapply out_positive; eassumption.
+Qed.
+
+(* exactness: whenever the conclusion holds for an accepted request, the three hypotheses held *)
+Lemma alloc_partial_exact : forall rs req out rs', wf_rows rs ->
+  do_bulk_add_or_replace false rs req = Accepted out rs' ->
+  alloc_statement (do_bulk_add_or_replace false) rs req ->
+  ~ In 0 (explicit_ids req) /\ NoDup (explicit_ids req) /\ clash_free (next_row_id rs) [] req = true.
+Proof.
+  intros rs req out rs' Hwf H Hst. destruct (Hst _ _ H) as [Hnd [_ [_ [Hin [_ Hpos]]]]].
+  destruct (add_accepted_always _ _ _ _ Hwf H) as [Hf _].
+  split.
+  - intros H0. pose proof (explicit_in_out _ _ _ Hf _ H0) as Ho.
+    assert (Hr : In 0 rs') by (apply Hin; right; assumption).
+    rewrite Forall_forall in Hpos. apply Hpos in Hr. lia.
+  - apply (fill_nodup_inv _ _ [] _ Hf Hnd). intros a [].
+Qed.
+
+(* the same for ReplaceTableData: no existing rows to collide with, next id starts at 1 *)
+Lemma replace_accepted_always : forall old req out rs',
+  do_bulk_add_or_replace true old req = Accepted out rs' ->
+  fill 1 req = PyOk out /\ (forall r, In r rs' <-> In r out /\ 0 < r) /\ wf_rows rs'.
+Proof.
+  intros old req out rs' H. unfold do_bulk_add_or_replace in H.
+  destruct (fill 1 req) as [o|e] eqn:Hf; [|discriminate]. cbn [finish] in H. inversion H; subst.
+  split; [reflexivity|]. split.
+  - intros r. unfold doc_replace. rewrite add_rows_In. cbn [In]. tauto.
+  - apply add_rows_wf. apply wf_nil.
+Qed.
+
+Lemma alloc_partial_replace : forall old req,
+  ~ In 0 (explicit_ids req) -> NoDup (explicit_ids req) -> clash_free 1 [] req = true ->
+  alloc_statement (replace_as_add do_bulk_add_or_replace old) [] req.
+Proof.
+  intros old req H0 Hnd Hcf out rs' H. unfold replace_as_add in H.
+  destruct (replace_accepted_always _ _ _ _ H) as [Hf [Hin Hwf]].
+  split; [eapply fill_nodup; eassumption|]. split; [intros r _ []|]. split; [|split; [|assumption]].
+  - eapply Forall2_impl; [|apply (fill_shape _ _ _ Hf)]. intros a b Hab. cbv beta in *.
+    destruct (explicit a); [tauto|]. intros e [].
+  - intros r. rewrite Hin. cbn [In]. split; [tauto|]. intros [[]|Hr]. split; [assumption|].
+    destruct (fill_elems _ _ _ Hf _ Hr) as [Hi|Hi]; [|lia].
+    pose proof (explicit_ids_bounds _ _ Hi). assert (r <> 0) by (intros ->; contradiction). lia.
+Qed.
+
+(* the rejections the unchanged code does perform: over the limit, and (for adds) already existing *)
+Lemma rejects_partial_add : forall rs req, wf_rows rs ->
+  ((exists z, In z (explicit_ids req) /\ z > MAX_ROW_ID) \/ (exists z, In z (explicit_ids req) /\ In z rs)) ->
+  (exists e, do_bulk_add_or_replace false rs req = Rejected e) /\
+  rows_after rs (do_bulk_add_or_replace false rs req) = rs.
+Proof.
+  intros rs req Hwf Hbad.
+  assert (E : exists e, do_bulk_add_or_replace false rs req = Rejected e).
+  { unfold do_bulk_add_or_replace. destruct (fill (next_row_id rs) req) as [o|e] eqn:Hf; [|eexists; reflexivity].
+    destruct Hbad as [Hbad|[z [Hz1 Hz2]]].
+    - exfalso. apply (fill_err_iff req (next_row_id rs)) in Hbad. destruct Hbad as [e He]. congruence.
+    - unfold finish, doc_bulk_add.
+      assert (Hex : existsb (fun r => row_in r rs) o = true).
+      { apply existsb_exists. exists z. split; [eapply explicit_in_out; eassumption|].
+        unfold row_in. apply andb_true_iff. split; [|apply mem_In; assumption].
+        apply Z.ltb_lt. destruct Hwf as [_ Hp]. rewrite Forall_forall in Hp. apply Hp. assumption. }
+      rewrite Hex. eexists; reflexivity. }
+  split; [assumption|]. destruct E as [e ->]. reflexivity.
+Qed.
+
+Lemma rejects_partial_replace : forall old req,
+  (exists z, In z (explicit_ids req) /\ z > MAX_ROW_ID) ->
+  (exists e, do_bulk_add_or_replace true old req = Rejected e) /\
+  rows_after old (do_bulk_add_or_replace true old req) = old.
+Proof.
+  intros old req Hbad. apply (fill_err_iff req 1) in Hbad. destruct Hbad as [e He].
+  unfold do_bulk_add_or_replace. rewrite He. split; [eexists; reflexivity|reflexivity].
+Qed.
